@@ -16,6 +16,8 @@ ASSUMPTIONS = [
   "capacity set to 8 so that no operation overflows (overflow behaviour is C16)",
   "ActiveObject host is not started (no thread): its queue is the LockingDeque over a non-blocking queue.Queue subclass",
   "handler scripts act only on the first dispatch of a case, so complete_circuit terminates",
+  "ig: 0 the chart handles every event, 1/2 the odd/even numbered events are answered by no state (offered, then ignored by top)",
+  "the truth value next_rtc returns is not asserted (the statement does not fix it); the number of events it dispatched is",
 ]
 OUTSIDE = ["more than two consecutive operations per case (covered by induction on the queue state)", "overflowing queues (C16)",
            "interleaving with other threads (C04)"]
@@ -24,7 +26,7 @@ EXPLANATION = ("Bounded symbolic execution (CrossHair/z3) of the real queued-cha
                "posts made during the first dispatch, on HsmWithQueues and an un-started ActiveObject, decorated or not, instrumented "
                "or not. Oracle: a collections.deque driven by the same operations; dispatch log, remaining queue and return values must match; "
                "next_rtc dispatches exactly the front event (at most one); complete_circuit returns with an empty queue.")
-RULE = "one case per (host, decoration, instrumented, pending length, op1, op2, script); non-trivial = at least one event dispatched"
+RULE = "one case per (host, decoration, instrumented, pending length, op1, op2, script, which tokens the chart ignores); non-trivial = at least one event dispatched"
 LIM = {"quick": dict(NP=2), "thorough": dict(NP=4)}
 POST_SCRIPTS = [i for i, s in enumerate(queued.SCRIPTS) if all(a in (0, 1) for a in s)]   # 7 scripts
 OPMAP = [0, 1, 2, 3]   # post_fifo, post_lifo, next_rtc, complete_circuit
@@ -39,14 +41,14 @@ def pre(v, lim):
   return v["np"] <= lim["NP"]
 
 
-def case(host, deco, instr, np_, op1, op2, script):
+def case(host, deco, instr, np_, op1, op2, script, ig):
   o1 = OPMAP[op1]
   o2 = -1 if op2 == 0 else OPMAP[op2 - 1]
   try:
-    qc, m, rr, rm = queued.run_pair(host, deco, instr, np_, 0, o1, o2, POST_SCRIPTS[script])
+    qc, m, rr, rm = queued.run_pair(host, deco, instr, np_, 0, o1, o2, POST_SCRIPTS[script], igmode=ig)
   except Exception as ex:
     return FAIL("raised:" + type(ex).__name__, repr(ex))
-  what = "host=%d deco=%d instr=%d np=%d ops=%s,%s script=%s" % (host, deco, instr, np_, queued.OPS[o1], queued.OPS[o2] if o2 >= 0 else "-", queued.SCRIPTS[POST_SCRIPTS[script]])
+  what = "host=%d deco=%d instr=%d ignored-tokens-mode=%d np=%d ops=%s,%s script=%s" % (host, deco, instr, ig, np_, queued.OPS[o1], queued.OPS[o2] if o2 >= 0 else "-", queued.SCRIPTS[POST_SCRIPTS[script]])
   if queued.NBQueue.blocked:
     return FAIL("would-block", what)
   if qc.log != m.log:
@@ -60,7 +62,7 @@ def case(host, deco, instr, np_, op1, op2, script):
   return PASS(nontrivial=len(m.log) > 0)
 
 
-Family(globals(), "h_queue", params=[("host", 0, 1), ("deco", 0, 1), ("instr", 0, 1), ("np", 0, 4), ("op1", 0, 3), ("op2", 0, 4), ("script", 0, 6)],
+Family(globals(), "h_queue", params=[("host", 0, 1), ("deco", 0, 1), ("instr", 0, 1), ("np", 0, 4), ("op1", 0, 3), ("op2", 0, 4), ("script", 0, 6), ("ig", 0, 2)],
        pre=pre, case=case, split=["host", "deco", "instr"], tiers=LIM)
 
 
